@@ -137,6 +137,15 @@ func VerifConnMap() {
 			vAssert(err == nil, "C13: closing an open socket releases its address")
 			open[ip][pt] = false
 		}
+		nOpen := 0
+		for a := 0; a < 3; a++ {
+			for b := 0; b < 2; b++ {
+				if open[a][b] {
+					nOpen++
+				}
+			}
+		}
+		vAssert(m.size() == nOpen, "C13: the socket table holds exactly the open sockets")
 	}
 	vCover("end")
 }
